@@ -332,6 +332,7 @@ type Job struct {
 	Seq      uint64        `json:"seq,omitempty"`      // sequence number the probe used (time / fee entropy)
 	Only     *txlab.CaseID `json:"only,omitempty"`     // replay of one case
 	Deadline int64         `json:"deadline,omitempty"` // unix ms after which the worker stops and reports a partial result
+	Revoke   bool          `json:"revoke,omitempty"`   // same-block revocation part (see runRevoke)
 }
 
 var deadlineMs int64
@@ -645,6 +646,9 @@ func runJob(j Job) (res Result) {
 	if j.Confirm != nil {
 		return runConfirm(j)
 	}
+	if j.Revoke {
+		return runRevoke(j)
+	}
 	labStart := time.Now()
 	fresh := lab == nil
 	if err := ensureLab(); err != nil {
@@ -825,6 +829,74 @@ func runJob(j Job) (res Result) {
 	return
 }
 
+// runRevoke: authority that is withdrawn INSIDE a block. T1 is the edit-stake by which the output key of a
+// non-custodial validator hands the output address to somebody else; T2 (unstake / pause / edit-stake) is signed
+// by that former output key. Each is authorized and succeeds when alone in a block. In the block [T1, T2] the
+// rules authorize T2 no longer when it executes: the block must equal the block [T1]. (The reverse order [T2, T1]
+// is authorized throughout and is only counted.)
+func runRevoke(j Job) (res Result) {
+	res.Outcomes, res.Parts = map[string]int{}, map[string]int{}
+	if err := ensureLab(); err != nil {
+		res.Err = err.Error()
+		return
+	}
+	id1 := txlab.CaseID{Msg: fsm.MessageEditStakeName, Kind: j.Kind, Target: "noncustodial-redirect", Role: "output", Mode: txlab.ModeHonest}
+	b1 := txlab.Build(lab, id1, 9001)
+	if b1.NA != "" {
+		res.NA++
+		res.Parts["revoke:na:"+b1.NA]++
+		return
+	}
+	crypto.SignatureCache.Reset()
+	p1 := lab.ProbeBlock([][]byte{b1.Raw}, false)
+	res.Evaluations++
+	if p1.Err != "" || p1.Included != 1 {
+		res.Parts["revoke:hand-over-not-applicable"]++
+		return
+	}
+	for n, m2 := range []string{fsm.MessageUnstakeName, fsm.MessagePauseName, fsm.MessageEditStakeName} {
+		id2 := txlab.CaseID{Msg: m2, Kind: j.Kind, Target: "noncustodial", Role: "output", Mode: txlab.ModeHonest}
+		b2 := txlab.Build(lab, id2, 9002+uint64(n))
+		if b2.NA != "" {
+			res.NA++
+			continue
+		}
+		crypto.SignatureCache.Reset()
+		p2 := lab.ProbeBlock([][]byte{b2.Raw}, false)
+		res.Evaluations++
+		if p2.Err != "" || p2.Included != 1 {
+			res.Parts["revoke:second-tx-not-valid-alone:"+m2]++
+			continue
+		}
+		res.Cases++
+		for _, warm := range []bool{false, true} {
+			crypto.SignatureCache.Reset()
+			if warm {
+				lab.ProbeBlock([][]byte{b2.Raw}, false) // the node verified T2's signature before (mempool)
+			}
+			pr := lab.ProbeBlock([][]byte{b1.Raw, b2.Raw}, false)
+			res.Evaluations++
+			var d []txlab.Change
+			if pr.Err == "" {
+				d = txlab.Diff(p1.State, pr.State)
+			}
+			res.Outcomes[fmt.Sprintf("revoke|%s|included=%d|differs-from-handover-alone=%v", m2, pr.Included, len(d) > 0)]++
+			res.Parts["revoke:"+m2]++
+			if pr.Err != "" || pr.Included != 1 || len(d) > 0 {
+				res.Viols = append(res.Viols, mc.Viol{Sig: "C05:revoked-signer-accepted:" + m2,
+					What: fmt.Sprintf("kind %s: block [edit-stake by the output key handing the output address over, %s signed by that FORMER output key] included %d transactions (want 1), err=%q, diff beyond the hand-over alone: %v",
+						j.Kind, m2, pr.Included, pr.Err, txlab.DescribeDiff(d, lab.W)),
+					Replay: map[string]any{"revoke": true, "kind": j.Kind}})
+			}
+		}
+		crypto.SignatureCache.Reset()
+		rev := lab.ProbeBlock([][]byte{b2.Raw, b1.Raw}, false)
+		res.Evaluations++
+		res.Outcomes[fmt.Sprintf("revoke-reverse-order|%s|included=%d", m2, rev.Included)]++
+	}
+	return
+}
+
 // runConfirm re-runs one authorized successful case through the real commit path
 // (env.Chain.Step: proposer ApplyBlock on a copy, replica ApplyBlock on the main FSM, QC,
 // IndexBlock, Commit) on fresh chains and compares the state diff with the probe's.
@@ -915,6 +987,9 @@ func main() {
 		for _, m := range txlab.MsgTypes {
 			jobs = append(jobs, Job{Kind: k, Msg: m, Thorough: !r.Quick(), Deadline: dl})
 		}
+	}
+	for _, k := range kinds {
+		jobs = append(jobs, Job{Kind: k, Revoke: true, Deadline: dl})
 	}
 	t0 := time.Now()
 	resplit := resplitProbe(r)
@@ -1092,13 +1167,27 @@ func resplitProbe(r *mc.Run) (probes int) {
 
 func doReplay(r *mc.Run) {
 	var rp struct {
-		Case txlab.CaseID `json:"case"`
+		Case   txlab.CaseID `json:"case"`
+		Revoke bool         `json:"revoke"`
+		Kind   string       `json:"kind"`
 	}
 	if err := r.LoadReplay(&rp); err != nil {
 		fmt.Println("cannot load replay:", err)
 		r.Finish(map[string]any{"evaluations": 0, "distinct_nontrivial": 0, "rule": "replay"})
 	}
 	ev := 0
+	if rp.Revoke {
+		for i := 0; i < 5; i++ {
+			res := runJob(Job{Kind: rp.Kind, Revoke: true})
+			ev += res.Evaluations
+			for _, v := range res.Viols {
+				r.OnViol(v)
+			}
+			fmt.Printf("replay %d: revocation part, kind %s evaluations=%d violations=%d\n", i, rp.Kind, res.Evaluations, len(res.Viols))
+		}
+		r.Finish(map[string]any{"evaluations": ev, "distinct_nontrivial": 2, "rule": "replay of the revocation part for one key kind, 5 times"})
+		return
+	}
 	for i := 0; i < 5; i++ {
 		id := rp.Case
 		res := runJob(Job{Kind: id.Kind, Msg: id.Msg, Only: &id})
